@@ -48,4 +48,29 @@ theorem scalar_zxOK (z : Cyc8) (hz : z.isNormal = true) : (Gate.scalar z).zxOK 1
   simp [ZXDiag.normal, ZXBox.normal, hz, ZXDiag.codFrom, ZXBox.sem, ZXB.dom, ZXB.cod]
   decide
 
+/-- Square-root scalars `sqrt(z)` (gates.Sqrt, a SUBCLASS of gates.Scalar: `isinstance(box, GatesScalar)`,
+    zx.py:397-400) translate to the scalar box of their DATA `z`, which denotes `r • ⟦sqrt(z)⟧ = r • [[r]]`
+    for the value `r` of the box (`r * r = z`): sound with `k = r` whenever `r` is invertible (`√2` of
+    `Circuit.cups` / `caps`, `1/√2`, `i`, `1 ± i`, `ζ`, `1 + √2`, …). -/
+theorem sqrt_zxOK (z r r' : Cyc8) (hz : z.isNormal = true) (hr : r.isNormal = true) (hr' : r'.isNormal = true)
+    (h : r * r = z) (hu : r * r' = 1) : (Gate.sqrt z r).zxOK r r' = true := by
+  have hsh : (Gate.sqrt z r).shapeOK = true := by
+    simp [Gate.shapeOK, isMatB, allNormalB, Gate.eval, Gate.evalW, Gate.isDagger, Gate.arrayW,
+      Gate.dom, Gate.cod, pow2, hr]
+  have hev : ZXDiag.eval 0 [(.scalar z, 0)] = msmul r [[r]] := by
+    have hA : AllEnt Nrm (ZXDiag.eval 0 [(.scalar z, 0)]) :=
+      ZXDiag.eval_allEnt 0 (by simp [ZXDiag.normal, ZXBox.normal, hz])
+    have hB : AllEnt Nrm (msmul r [[r]]) :=
+      AllEnt.msmul nrm_closed (k := r) hr (by intro w hw x hx; simp at hw; subst hw; simp at hx; subst hx; exact hr)
+    apply eq_of_val hA hB
+    subst h
+    simp [ZXDiag.eval, ZXDiag.sem, ZXBox.sem, evalZX, evalZXFrom, ZXB.mat, ZXB.dom, idQ, pow2,
+      identity, mul, rowMul, vadd, smul, kron, msmul, mapM, Cyc8.val_mul, Cyc8.val_one]
+  simp only [Gate.zxOK, gate2zx, hsh, Gate.dom, Gate.cod, Gate.eval, Gate.evalW, Gate.isDagger,
+    Gate.arrayW, hev]
+  simp [ZXDiag.normal, ZXBox.normal, hz, hr, hr', hu, ZXDiag.codFrom, ZXBox.sem, ZXB.dom, ZXB.cod]
+
+/-- `sqrt(0)`: value and image are both the zero scalar (`k = 1`). -/
+theorem sqrt_zero_zxOK : (Gate.sqrt 0 0).zxOK 1 1 = true := by decide +kernel
+
 end DV.Gates
